@@ -83,6 +83,13 @@ class Opaque:
         return f"Opaque<{self.tag}>"
 
 
+class TypeOfSym:
+    """type(v) of a scalar whose run-time type is symbolic (v.pytag)"""
+
+    def __init__(self, tag):
+        self.tag = tag
+
+
 class AbsVal:
     """An abstract value of an uninterpreted sort (e.g. the dict returned by HostVector.services).
     Carries a z3 term so equality of two such values is decidable by the solver."""
